@@ -265,3 +265,74 @@ class padding_rows_clip:
         W = PROTOCOLS["Widget"]
         cw, ch = W.call_quiet(cur(), old._original_widget, "pack", dict(size=(), focus=a.focus))
         yield "the-childs-natural-height", result == ch
+
+
+# ============================================================================================ Filler
+from urwid.widget import filler as _filler  # noqa: E402
+
+FillerError = _filler.FillerError
+
+
+@contract(FI + "Filler.sizing", property="C01", replayable=False, call_real=sizing_call_real)
+class filler_sizing:
+    """BOX always; FLOW exactly when the height does not depend on the rows offered ('pack' or a given number)."""
+    self_shape = FILLER
+    params = {}
+    result = Custom(_fresh_sizing, "set of sizing modes")
+    raises = ()
+
+    def ensures(old, s, a, result):
+        yield "box-always", _has(result, Sizing.BOX)
+        yield "flow-exactly-for-pack-or-given-height", eq(_has(result, Sizing.FLOW), either(old.height_type == "pack", old.height_type == "given"))
+        yield "never-fixed", neg(_has(result, Sizing.FIXED))
+
+
+@contract(FI + "Filler.rows", property="C01", replayable=False, inline=("urwid/widget/widget_decoration.py:WidgetDecoration.original_widget",))
+class filler_rows:
+    """The rows a flow Filler draws: the child's (flow child) or the given height, plus the margins -- the same number
+    Filler.render's flow case pads / cuts to (contracts/C09_geometry.py: filler_render, clause `size`).  FillerError for
+    a relative height: not a flow widget, and sizing() says so."""
+    self_shape = FILLER
+    params = dict(size=Tup(Int), focus=Bool)
+    result = Int
+    raises = (FillerError,)
+    raises_iff = {FillerError: lambda s, a: s.height_type == "relative"}
+
+    def requires(s, a):
+        return both(filler_wf(s), size_ok(a.size))
+
+    def ensures(old, s, a, result):
+        from contracts.C19_space import filler_geometry
+
+        _maxcol, maxrow, _req = filler_geometry(old, a.size, a.focus)
+        yield "only-for-a-flow-filler", neg(old.height_type == "relative")
+        yield "rows-render-draws", result == maxrow
+        yield "nonnegative", result >= 0
+
+    def on_raise(old, s, a, exc):
+        yield "only-for-a-relative-height", old.height_type == "relative"
+
+
+@contract("urwid/widget/widget.py:Widget.pack", property="C01", alias="Filler", replayable=False)
+class filler_pack:
+    """`Widget.pack` as Filler inherits it: a box size as given; a flow size gives (maxcol, own rows) for a flow Filler;
+    sizes of a mode sizing() does not report raise WidgetError -- the documented error -- and nothing else."""
+    self_shape = FILLER
+    params = dict(size=ANYSIZE, focus=Bool)
+    result = Tup(Int, Int)
+    raises = (WidgetError,)
+
+    def requires(s, a):
+        return both(filler_wf(s), size_ok(a.size))
+
+    def ensures(old, s, a, result):
+        if len(a.size) == 2:
+            yield "box-size-as-given", both(result[0] == a.size[0], result[1] == a.size[1])
+        elif len(a.size) == 1:
+            yield "flow-only-for-a-flow-filler", neg(old.height_type == "relative")
+            yield "flow-is-maxcol-and-own-rows", both(result[0] == a.size[0], result[1] == filler_rows.spec_value(old, size=a.size, focus=a.focus))
+        else:
+            yield "never-fixed", False
+
+    def on_raise(old, s, a, exc):
+        yield "only-for-a-mode-sizing-does-not-report", either(len(a.size) == 0, both(len(a.size) == 1, old.height_type == "relative"))
